@@ -279,6 +279,127 @@ def gen_affine_product(rng):
     return text, ["affine-only"] + (["parameter-product-attribute"] if nprod else [])
 
 
+# constants that differ as doubles but print alike with 6 significant digits; a plain literal becomes a python
+# float attribute, a literal EXPRESSION stays a constant ca.MX attribute (MX_INDEPENDENT, read back from the
+# metadata function on load)
+NEAR_DUP = [
+    ["0.333333", "1/3", "0.3333333"],
+    ["0.666667", "2/3"],
+    ["0.142857", "1/7", "2/14.0000001"],
+    ["1234567.9", "3703703.7/3", "1234567.91"],
+    ["1.41421", "sqrt(2)", "2/sqrt(2)"],
+    ["0.1", "0.3/3", "1/10.0000001"],
+    ["2.71828", "exp(1)"],
+]
+
+
+def gen_near_dup(rng):
+    ps = ["p1", "p2"]
+    decl = ["parameter Real p1 = %s;" % lit(rng), "parameter Real p2;"]
+    names = ["u1", "x1", "y1", "y2", "y3"][:rng.randint(3, 5)]
+    slots = [(v, a) for v in names for a in ("min", "max", "start", "nominal")]
+    rng.shuffle(slots)
+    attrs = {}
+    for grp in rng.sample(NEAR_DUP, rng.randint(1, 2)):
+        members = list(grp)
+        rng.shuffle(members)
+        for mbr in members[:rng.randint(2, len(members))]:
+            v, a = slots.pop()
+            attrs.setdefault(v, []).append("%s = %s" % (a, mbr))
+    for _ in range(rng.randint(0, 2)):
+        v, a = slots.pop()
+        attrs.setdefault(v, []).append("%s = %s" % (a, rng.choice(["p1 + p2", "3*p1", lit(rng), "p1*p2"])))
+    eqs = ["der(x1) = -p1*x1 + %s;" % ("u1" if "u1" in names else "p2")]
+    for v in names:
+        pre = "input " if v == "u1" else ""
+        decl.append("%sReal %s%s;" % (pre, v, "(%s)" % ", ".join(attrs[v]) if v in attrs else ""))
+        if v.startswith("y"):
+            eqs.append("%s = %s*x1 + p2;" % (v, rng.choice(["3", "0.5"])))
+    text = "model M\n  " + "\n  ".join(decl) + "\nequation\n  " + "\n  ".join(eqs) + "\nend M;\n"
+    return text, ["near-duplicate-constants"]
+
+
+def gen_nonsmooth(rng):
+    """min / max / abs / if-else in equations and in parameter-dependent attributes; some parameters have no
+    value (NaN by default) - the functions and attributes are compared at NaN and +-inf points as well"""
+    decl = ["parameter Real lo = %s;" % lit(rng), "parameter Real hi%s;" % (" = %s" % lit(rng) if rng.random() < 0.4 else ""),
+            "input Real u;"]
+    a1 = rng.choice(["min(lo, hi)", "max(lo, hi)", "abs(lo - hi)", "min(lo, 2.5)", "max(hi, 0.5) + lo"])
+    a2 = rng.choice(["max(lo, hi)", "min(hi, 1.5)", "abs(hi)", "min(lo, hi) + 1"])
+    decl.append("Real x(%s = %s);" % (rng.choice(["min", "max", "nominal"]), a1))
+    decl.append("Real y%s;" % ("(%s = %s)" % (rng.choice(["min", "max", "start"]), a2) if rng.random() < 0.6 else ""))
+    eqs = ["der(x) = u - %s;" % rng.choice(["x", "min(x, lo)", "abs(x)"]),
+           "y = %s;" % rng.choice(["min(x, hi)", "max(x, hi)", "min(x, u) + max(lo, hi)", "abs(x - hi)"])]
+    if rng.random() < 0.7:
+        decl.append("Real w;")
+        eqs.append("w = if x %s hi then %s else %s;" % (rng.choice([">", "<", ">=", "<="]), rng.choice(["1.0", "x", "lo"]),
+                                                      rng.choice(["2.0", "hi", "x + 1"])))
+    text = "model M\n  " + "\n  ".join(decl) + "\nequation\n  " + "\n  ".join(eqs) + "\nend M;\n"
+    return text, ["nonsmooth"]
+
+
+NONSMOOTH_DIRECTED = ("min-max-ifelse-with-unset-parameter", {}, """model M
+  parameter Real lo = 1.0;
+  parameter Real hi;
+  input Real u;
+  Real x(max = min(lo, hi));
+  Real y;
+  Real w;
+equation
+  der(x) = u - x;
+  y = min(x, hi);
+  w = if x > hi then 1.0 else 2.0;
+end M;
+""")
+
+
+# ---------------------------------------------------------------------------
+# S1: fail-closed probe of the compiler flags in _codegen_model
+# ---------------------------------------------------------------------------
+SAFE_CFLAGS = {"-O0", "-O1", "-O2", "-Os", "-Og", "-g", "-fPIC", "-fpic", "-Wall", "-w", "-pipe",
+               "/O1", "/O2", "/Od", "/wd4101", "/D_UCRT_NOISY_NAN", "/DLL"}
+
+
+def probe_codegen_flags(repo):
+    """-> (ok, detail).  Every string that can reach the C compiler / linker through compiler_flags / linker_flags
+    must be a known value-preserving flag (no -ffast-math, -Ofast, -O3, -funsafe-math-optimizations, -march=...)."""
+    import ast
+    try:
+        tree = ast.parse(open(os.path.join(repo, "src/pymoca/backends/casadi/api.py")).read())
+    except (OSError, SyntaxError) as e:
+        return False, "cannot parse api.py: %s" % e
+    fn = [n for n in tree.body if isinstance(n, ast.FunctionDef) and n.name == "_codegen_model"]
+    if len(fn) != 1:
+        return False, "_codegen_model not found"
+    flags, problems, calls = [], [], 0
+    for n in ast.walk(fn[0]):
+        if isinstance(n, (ast.Assign, ast.AugAssign, ast.AnnAssign)):
+            targets = n.targets if isinstance(n, ast.Assign) else [n.target]
+            if any(isinstance(t, ast.Name) and t.id in ("compiler_flags", "linker_flags") for t in targets):
+                if isinstance(n, ast.Assign) and isinstance(n.value, ast.List) and \
+                        all(isinstance(e, ast.Constant) and isinstance(e.value, str) for e in n.value.elts):
+                    flags += [e.value for e in n.value.elts]
+                else:
+                    problems.append("line %d: flags are not a list of string literals" % n.lineno)
+        if isinstance(n, ast.Call):
+            name = ast.unparse(n.func)
+            if name in ("compiler.compile", "compiler.link"):
+                calls += 1
+                for kw in n.keywords:
+                    if kw.arg in ("extra_postargs", "extra_preargs") and ast.unparse(kw.value) not in ("compiler_flags", "linker_flags"):
+                        problems.append("line %d: %s=%s" % (n.lineno, kw.arg, ast.unparse(kw.value)))
+            if name.endswith((".append", ".extend", ".insert")) and ("compiler_flags" in name or "linker_flags" in name):
+                problems.append("line %d: flags modified in place" % n.lineno)
+            if name in ("os.environ.setdefault", "os.putenv") or "set_executable" in name:
+                problems.append("line %d: compiler environment changed" % n.lineno)
+    bad = [f for f in flags if f not in SAFE_CFLAGS]
+    if bad:
+        problems.append("flags outside the value-preserving set: %s" % bad)
+    if calls != 2 or not flags:
+        problems.append("expected one compiler.compile and one compiler.link call and literal flag lists (calls=%d)" % calls)
+    return not problems, "; ".join(problems) or "flags %s" % sorted(set(flags))
+
+
 SEQ_BASE = {"eliminate_constant_assignments": True, "factor_and_simplify_equations": True,
             "replace_constant_expressions": True, "replace_constant_values": True, "detect_aliases": True}
 # options that Model.simplify reads with options.get() and that are NOT in the default option dictionary
@@ -342,6 +463,19 @@ end M;
 
 
 DIRECTED = [
+    ("near-duplicate-constants", {}, """model M
+  parameter Real area = 2.5;
+  parameter Real hmax = 4.0;
+  input Real qin(min = 0.0, max = 1/3);
+  Real h(min = 0.0, max = hmax, nominal = 1234568.1);
+  Real qout(min = 0.0, max = 0.333333, nominal = 3703703.7/3);
+  Real v(max = area*hmax, start = 0.3333333);
+equation
+  area*der(h) = qin - qout;
+  qout = 0.1*h;
+  v = area*h;
+end M;
+"""),
     ("bilinear-attribute-in-affine-model", {}, """model M
   parameter Real area;
   parameter Real height = 2.0;
@@ -491,7 +625,9 @@ def close(a, b):
 
 
 def diff(a, b, path=""):
-    """first difference between two observations, or None"""
+    """first difference between two observations, or None.  Attribute values are compared EXACTLY (the doubles
+    survive JSON unchanged); function values with a relative tolerance of 1e-9 (NaN and +-inf are the strings
+    "nan", "inf", "-inf" and compare by equality)."""
     if isinstance(a, dict) and isinstance(b, dict):
         for k in sorted(set(a) | set(b)):
             if k in ("type", "msg"):
@@ -512,7 +648,7 @@ def diff(a, b, path=""):
             if r:
                 return r
         return None
-    if not close(a, b):
+    if not (a == b if "/attrs/" in path else close(a, b)):
         return "%s: fresh %s, cached %s" % (path, json.dumps(a)[:160], json.dumps(b)[:160])
     return None
 
@@ -600,7 +736,7 @@ class Skip(Exception):
 
 def cq_q(x, fn):
     fr = Fraction(x)
-    if fr.denominator > 10 ** 12 or abs(fr.numerator) > 10 ** 15:
+    if fr.denominator > 2 ** 80 or abs(fr.numerator) > 2 ** 100:
         raise Skip("not a small dyadic")
     return "(%s (%d)%%Z %d%%positive)" % (fn, fr.numerator, fr.denominator)
 
@@ -685,7 +821,7 @@ def encode(case, res):
                 else:
                     if not isinstance(ao["vals"], list):
                         raise Skip("loaded attribute has free symbols")
-                    row.append("(false, %s)" % cq_list([cq_list([cq_V(x) for x in vv]) for vv in ao["vals"]]))
+                    row.append("(false, %s)" % cq_list([cq_list([cq_V(x) for x in vv]) for vv in ao["vals"][:3]]))
             vs.append(cq_list(row))
         oattrs.append(cq_list(vs))
     if have_delays:
@@ -734,16 +870,33 @@ def build_cases(ctx):
                       "mode": "cache", "origin": "generated-affine", "features": feats})
     for i in range(ctx.scaled(5, 100)):
         cases.append(gen_sequence(ctx.rng))
-    n_gen = ctx.scaled(30, 1000)
+    n_, o_, t_ = NONSMOOTH_DIRECTED
+    cases.append({"name": "M", "text": t_, "opts": o_, "mode": "cache", "origin": "directed:" + n_})
+    for i in range(ctx.scaled(5, 100)):
+        text, feats = gen_near_dup(ctx.rng)
+        cases.append({"name": "M", "text": text, "opts": ctx.rng.choice([{}, {}, {"expand_vectors": True}]),
+                      "mode": "cache", "origin": "generated-neardup", "features": feats})
+    for i in range(ctx.scaled(4, 80)):
+        text, feats = gen_nonsmooth(ctx.rng)
+        cases.append({"name": "M", "text": text, "opts": ctx.rng.choice([{}, {}, {"expand_vectors": True}]),
+                      "mode": "cache", "origin": "generated-nonsmooth", "features": feats})
+    n_gen = ctx.scaled(24, 1000)
     for i in range(n_gen):
         opts = dict(OPTION_SETS[i % len(OPTION_SETS)] if ctx.rng.random() < 0.8 else ctx.rng.choice(OPTION_SETS))
         text, feats = gen_model(ctx.rng, opts)
         cases.append({"name": "M", "text": text, "opts": opts, "mode": "cache", "origin": "generated", "features": feats})
     n_cg = ctx.scaled(0, 4)
     for i in range(n_cg):
-        n, o, t = DIRECTED[[4, 7, 0, 2][i % 4]]
+        n, o, t = DIRECTED[[5, 8, 1, 0][i % 4]]
         cases.append({"name": "M", "text": t, "opts": o, "mode": "codegen", "origin": "directed-codegen:" + n})
+    if n_cg or not ctx.notes.get("codegen_flags_probe_ok", True):
+        # thorough tier; or the flag probe failed: one compiled model evaluated at NaN / inf points so that a
+        # value-changing compiler flag shows up as a concrete failing input
+        cases.append({"name": "M", "text": t_, "opts": o_, "mode": "codegen", "origin": "directed-codegen:" + n_})
     if n_cg:
+        text, feats = gen_nonsmooth(ctx.rng)
+        cases.append({"name": "M", "text": text, "opts": {}, "mode": "codegen", "origin": "generated-nonsmooth-codegen",
+                      "features": feats})
         n, steps, t = DIRECTED_SEQ[0]
         cases.append({"name": "M", "text": t, "steps": steps, "mode": "codegen", "origin": "directed-sequence-codegen:" + n})
     return cases
@@ -753,6 +906,10 @@ def run(ctx):
     from concurrent.futures import ThreadPoolExecutor
     fp, n = core.fingerprint(core.REPO + "/src/pymoca/backends/casadi/api.py", {"save_model", "load_model", "_codegen_model"})
     ctx.notes["source_fingerprint"] = {"api.py:save_model,load_model,_codegen_model": fp}
+    ok, detail = probe_codegen_flags(core.REPO)
+    ctx.notes["codegen_flags_probe_ok"] = ok
+    ctx.notes["codegen_flags_probe"] = detail
+    ctx.oblige("tie:codegen-compiler-flags-are-value-preserving(api.py _codegen_model)", ok, detail)
     cases = build_cases(ctx)
     with ThreadPoolExecutor(max_workers=1) as ex:
         fut = ex.submit(run_parallel, ctx, cases)
